@@ -49,6 +49,10 @@ func c10BinAlphabet() []wStep {
 		// request willing to wait belongs to the leader's queue; with and without the wait-when-unlocked flag
 		{Bin: z(func() hapi.Cmd { c := L(0, 1, 4, 2, 10, 0, 0); c.Flag = 0x08; return c }())},
 		{Bin: z(func() hapi.Cmd { c := L(0, 1, 5, 0, 10, 0, 0); c.Flag = 0x08; return c }())},
+		// a holder the leader never logs (the follower's copy of the key stays empty), and a concurrent-check request
+		// that only waits while the key is free
+		{Bin: func() *hapi.Cmd { c := withEF(L(0, 1, 7, 0, 10, 1, 0), efNeverAof); return &c }()},
+		{Bin: func() *hapi.Cmd { c := L(0, 1, 6, 0, 10, 1, 0); c.Flag, c.TimeoutFlag = 0x08, 0x0200; return &c }()},
 		// the client announces itself (INIT) in the middle of a connection
 		{Raw: func() []byte { b := make64(protocol.COMMAND_INIT); b[19], b[34] = 0x63, 0x31; return b }()},
 		{Tick: 1 * sec},
@@ -238,7 +242,29 @@ func seqsOf(n, depth int) [][]int {
 
 // runVia plays the sequence against the leader directly (via=0) or through the follower's port (via=1)
 // on a fresh leader+follower cluster and returns replies plus the leader's final state.
+// replicableState: UserString without the holds the leader never logs (never-persist policy): a follower cannot have them.
+func replicableState(s *hapi.Snapshot) string {
+	c := *s
+	c.Keys = nil
+	for _, k := range s.Keys {
+		kk := k
+		kk.Holds = nil
+		for _, h := range k.Holds {
+			if h.AofTime != 0xff {
+				kk.Holds = append(kk.Holds, h)
+			}
+		}
+		c.Keys = append(c.Keys, kk)
+	}
+	return c.UserString()
+}
+
 func runVia(steps []wStep, text bool, via int) (replies [][]string, leaderState string, followerState string, err string) {
+	replies, leaderState, _, followerState, err = runVia2(steps, text, via)
+	return
+}
+
+func runVia2(steps []wStep, text bool, via int) (replies [][]string, leaderState string, leaderRepl string, followerState string, err string) {
 	rt := vrt.Run(vrt.Options{MaxPoints: 200_000_000}, func() {
 		cl, e := StartLeaderFollowers(1, nil)
 		if e != nil {
@@ -257,6 +283,7 @@ func runVia(steps []wStep, text bool, via int) (replies [][]string, leaderState 
 		replies = r
 		vrt.AdvanceTo(vrt.Elapsed() + 1*sec)
 		leaderState = strip(cl.Nodes[0].Snapshot().UserString())
+		leaderRepl = strip(replicableState(cl.Nodes[0].Snapshot()))
 		followerState = strip(cl.Nodes[1].Snapshot().UserString())
 	})
 	if rt.Crash != nil {
@@ -292,7 +319,7 @@ func evalC10(c *Ctx, cs EnumCase) EnumResult {
 		res.Sub++
 		switch a.Kind {
 		case "differential":
-			f, lsf, fsf, e2 := runVia(steps, a.Text, 1)
+			f, lsf, lrf, fsf, e2 := runVia2(steps, a.Text, 1)
 			// requests the follower refused with STATE_ERROR are legal refusals: the comparable direct run
 			// is the sequence without them
 			var kept []wStep
@@ -324,6 +351,7 @@ func evalC10(c *Ctx, cs EnumCase) EnumResult {
 				// (commands queued behind a waiting LOCK) may see the state before that write: replication lag
 				f = d
 			}
+			staleCheck := false
 			if fmt.Sprint(d) != fmt.Sprint(f) {
 				sig := "C10:outcome-differs-via-follower"
 				if a.Text && len(d) == len(f) {
@@ -344,12 +372,31 @@ func evalC10(c *Ctx, cs EnumCase) EnumResult {
 						sig += "/first-text-command-handled-locally"
 					}
 				}
+				if !a.Text && len(d) == len(f) {
+					// the only differing answers are those of concurrent-check requests (flag 0x08), which a node may answer
+					// from its own copy of the key
+					only, any := true, false
+					for i := range d {
+						if fmt.Sprint(d[i]) != fmt.Sprint(f[i]) {
+							any = true
+							if i >= len(kept) || kept[i].Bin == nil || kept[i].Bin.Flag&0x08 == 0 {
+								only = false
+							}
+						}
+					}
+					if only && any {
+						sig += "/concurrent-check-answered-from-a-stale-copy"
+						staleCheck = true
+					}
+				}
 				vs = append(vs, explore.Violation{Sig: sig, Msg: fmt.Sprintf("sequence %v: sent to the leader it is answered %v, sent to the follower it is answered %v", names, d, f)})
 			}
-			if ls != lsf {
+			if ls != lsf && staleCheck {
+				vs = append(vs, explore.Violation{Sig: "C10:leader-state-differs-via-follower/concurrent-check-answered-from-a-stale-copy", Msg: fmt.Sprintf("sequence %v: leader state after direct traffic [%s], after forwarded traffic [%s]", names, ls, lsf)})
+			} else if ls != lsf {
 				vs = append(vs, explore.Violation{Sig: "C10:leader-state-differs-via-follower", Msg: fmt.Sprintf("sequence %v: leader state after direct traffic [%s], after forwarded traffic [%s]", names, ls, lsf)})
 			}
-			if lsf != fsf {
+			if lrf != fsf {
 				sig := "C10:follower-diverged"
 				for _, st := range kept {
 					if j := strings.Join(st.Text, " "); len(st.Text) > 0 && (strings.Contains(j, " FLAG 4") || strings.Contains(j, " FLAG 5")) {
